@@ -39,3 +39,10 @@ func VerifSetReadBufSize(n int) (restore func()) {
 
 // VerifNonNilIsAny exposes nonNilIsAny.
 func VerifNonNilIsAny(err error, matches []error) bool { return nonNilIsAny(err, matches) }
+
+// VerifDenyErrs and VerifEndErrs expose the classifier tables.
+func VerifDenyErrs() []error { return append([]error(nil), denyErrs...) }
+func VerifEndErrs() []error  { return append([]error(nil), endErrs...) }
+
+// VerifProtoReset exposes the protocol-violation sentinel.
+func VerifProtoReset() error { return errProtoReset }
